@@ -95,8 +95,9 @@ def tree_key(repo):
 
 class Lock(object):
     def __init__(self, name):
-        os.makedirs(WORK, exist_ok=True)
-        self.path = os.path.join(WORK, name)
+        d = os.path.join(WORK, "locks")
+        os.makedirs(d, exist_ok=True)
+        self.path = os.path.join(d, name)
 
     def __enter__(self):
         self.f = open(self.path, "w")
@@ -126,7 +127,7 @@ def _prune(parent, keep):
     for mt, d in ds[:-keep] if len(ds) > keep else []:
         if now - mt > 6 * 3600:
             shutil.rmtree(os.path.join(parent, d), ignore_errors=True)
-    for f in glob.glob(os.path.join(WORK, "*.lock")):
+    for f in glob.glob(os.path.join(WORK, "locks", "*.lock")):
         try:
             if now - os.path.getmtime(f) > 24 * 3600:
                 os.remove(f)
